@@ -370,6 +370,31 @@ def run(ctx) -> None:
            "the fallback weights are not assigned over the same range the weights were read for (%s): some stage keeps its old weight "
            "and the weights no longer add up to one" % n_expr, construct="replacement loop over range(%s)" % n_expr)
 
+    # ... and that range covers every stage that has a component: the running maximum of the stage indices takes each component's stage
+    # through int() (or the stage-identifier helper) - a stage given as the string "2" otherwise raises TypeError inside max(), the handler
+    # around it swallows the error, the stage is not counted and the last stage's weight is neither read nor replaced (seed C20-11)
+    n_max = 0
+    for st in [x for x in source.walk_own(idv) if isinstance(x, ast.Assign) and len(x.targets) == 1 and isinstance(x.targets[0], ast.Name)
+               and isinstance(x.value, ast.Call) and call_name(x.value) == "max" and len(x.value.args) == 2]:
+        acc = st.targets[0].id
+        others = [a for a in st.value.args if not (isinstance(a, ast.Name) and a.id == acc)]
+        if len(others) != 1 or "stage" not in source.src(others[0]):
+            continue
+        n_max += 1
+        e = others[0]
+        normalised = isinstance(e, ast.Call) and ((call_name(e) or "").split(".")[-1] in ("int", "stage_identifier_to_stage_index"))
+        swallowed = any(isinstance(a, ast.Try) and any(st is y for b in a.body for y in ast.walk(b)) and any(
+            all(isinstance(z, ast.Pass) for z in h.body) or not any(isinstance(z, ast.Raise) for z in ast.walk(h)) for h in a.handlers)
+            for a in source.ancestors(st))
+        ok = normalised or not swallowed
+        ctx.ob("C20.R2-replacement-total", st, ok,
+               "the number of stages is the maximum over int(<stage of every component>) + 1" if ok else
+               "the running maximum compares the accumulator with %s as it is written in the document: a stage index given as a string raises "
+               "TypeError inside max(), the surrounding handler swallows it and that component's stage is not counted - the weights of the last "
+               "stage(s) are neither read nor replaced, [0.2, 0.3, 0.5] loads as [0.5, 0.5, 0.5]" % short(e, 40),
+               construct="number of stages = max(int(stage)) + 1")
+    ctx.require(n_max >= 1, "anchor missing: the running maximum of the components' stage indices in FlowIR.inject_default_values")
+
     # R12: the replacement writes through <report>[idx]['stage-weight']: every stage owns its dictionary by then
     def canon(e: ast.AST) -> str:
         if isinstance(e, ast.Name):
